@@ -37,7 +37,10 @@ def run(tier, seed):
     # after every control-stream write) put on the control stream in either direction decodes record by record to the last byte
     ls = vlib.run_vh_sharded(['ctrl-stream', '-runs', '24' if tier == "quick" else '240', '-seed', str(seed)], 6, timeout=1800)
     for viol in ls['violations']:
-        v.violation(viol['sig'], viol.get('replay'))
+        if viol['sig'].pop('property', PROP) == PROP:
+            v.violation(viol['sig'], viol.get('replay'))
+        else:
+            print("NOTE C18: a live transfer showed an anomaly that belongs to another property: %s" % viol['sig'])
     if res['drift']:
         print("DRIFT C18: encoded lengths differ from Wire.tla's EncodedLen on %d values (not a verdict)" % res['drift'])
         v.notes.append(str(res.get('drift_samples', [])[:1])[:400])
